@@ -1,4 +1,5 @@
 import BoxoModel.C26.Model
+import BoxoModel.C26.Time
 /-! Line-protocol driver for C26. One op kind:
   new k=v …   (fields: see harness/cmd/c26/main.go; unknown fields are ignored)
 The codec / crypto parameters are instantiated with law-abiding stand-ins (decode returns the node that
@@ -94,6 +95,13 @@ def stepLine (line : String) : String :=
   match toks with
   | ["case", n] => s!"case {n}"
   | ["end"] => "end"
+  | ["ptime", h] =>
+    match parseHex h with
+    | some bs =>
+      match C26.Time.parseTime bs with
+      | some t => s!"ok {t}"
+      | none => "err"
+    | none => "bad-op"
   | "new" :: f =>
     let g := kv f
     let r : Option String := do
@@ -102,7 +110,8 @@ def stepLine (line : String) : String :=
       let eol ← (g "eol").toInt?
       let now ← (g "now").toInt?
       let ttl ← (g "ttl").toInt?
-      let fmt ← parseHex (g "fmt")
+      -- the validity string is computed by the model (C26.Time.formatTime), not taken from the op line
+      let fmt := C26.Time.formatTime eol
       let md ← parseMeta (g "meta")
       let embed : Option Bool := if g "embed" == "-" then none else some (g "embed" == "1")
       let o : Opts := { v1 := g "v1" == "1", embed := embed, metadata := md }
@@ -115,7 +124,7 @@ def stepLine (line : String) : String :=
         let C : Crypto := { verify := fun _ _ _ => true, parseKey := fun _ => some 1, nameOf := fun _ => 1,
                             inlineKey := fun _ => if g "needembed" == "1" then none else some 1 }
         let decode : Bytes → Option Node := fun _ => some rec.node
-        let parseTime : Bytes → Option Int := fun _ => some eol
+        let parseTime : Bytes → Option Int := C26.Time.parseTime
         let created := s!"node={showNode rec.node} v={toHex rec.pb.value} vy={toHex rec.pb.validity} seq={rec.pb.sequence} ttl={rec.pb.ttl} s1={if rec.pb.sigV1.isEmpty then 0 else 1} pk={if rec.pb.pubKey.isEmpty then 0 else 1}"
         match unmarshal decode (if big then 20000 else 100) (some rec.pb) with
         | .error e => pure s!"{created} rt={showErr e}"
